@@ -60,7 +60,7 @@ pub fn run(tier: Tier) -> i32 {
     let mut big = crate::universe::u_big(tier);
     big.retain(|u| u.name.contains("big/conn-ids"));
     us.extend(big);
-    let depth = tier.pick(3, 4);
+    let depth = tier.pick(3, 5);
     let seqs = all_seqs(SENTS.len(), depth);
     let tasks: Vec<(usize, bool)> = (0..us.len()).flat_map(|i| [(i, false), (i, true)]).collect();
     let st = par_explore(tasks.len(), |ti, st| {
